@@ -14,9 +14,12 @@ EXPLANATION = (
 
 
 def run(e, R, tier):
-    C.r_exc_breadth(e, R)
-    C.r_feeder(e, R)
-    C.r_feeder_hook(e, R)
-    C.r_cause(e, R)
-    L.r_own_resolve(e, R)
-    L.r_drop_resolves(e, R)
+    R.run_rules(e, [
+        C.r_exc_breadth,
+        C.r_feeder,
+        C.r_feeder_hook,
+        C.r_cause,
+        L.r_own_resolve,
+        L.r_drop_resolves,
+    ])
+
